@@ -40,8 +40,9 @@ type eg struct {
 
 func (g *eg) pick(label string, n int) int { return rapid.IntRange(0, n-1).Draw(g.t, label) }
 
-var atomTexts = []string{"a", "foo", "+", "nil", "true", "42", "-1", ":k", "x?", "\"s\"", "\"(\"", "\")]}\"", "\"[{\"", "\"a b\"", "¬raw¬", "¬(]}¬", "¬)¬", "¬]¬", "¬}¬", "¬(¬", "\")\"", "\"]\"", "\"}\"", "¬#{¬", "¬{\"k\": [1}¬", "\"#{\"", ":a-b", "&", "0x1F"}
-var keyTexts = []string{":a", ":b", ":k", "\"s\"", "\"(\"", "\"}\"", ":a-b", "¬raw}¬", "¬}¬", "¬)¬", "\"]\""}
+var atomTexts = []string{"a", "foo", "+", "nil", "true", "42", "-1", ":k", "x?", "\"s\"", "\"(\"", "\")]}\"", "\"[{\"", "\"a b\"", "¬raw¬", "¬(]}¬", "¬)¬", "¬]¬", "¬}¬", "¬(¬", "\")\"", "\"]\"", "\"}\"", "¬#{¬", "¬{\"k\": [1}¬", "\"#{\"", ":a-b", "&", "0x1F",
+	"\"\"", "¬¬", "¬a\nb)¬", "\"a\\\"(\"", "\"\\\\\"", "¬\"¬", "\"¬\""}
+var keyTexts = []string{":a", ":b", ":k", "\"s\"", "\"(\"", "\"}\"", ":a-b", "¬raw}¬", "¬}¬", "¬)¬", "\"]\"", "\"\"", "¬¬"}
 
 func (g *eg) emit(text, kind string, need int) {
 	g.toks = append(g.toks, Tok{Text: text, Kind: kind, Need: need})
